@@ -275,7 +275,7 @@ func genOps(r *rand.Rand, n int, limit int, oddPct int, withClear bool) []Op {
 
 func nCases(tier string) int {
 	if tier == "thorough" {
-		return 700
+		return 320
 	}
 	return 56
 }
